@@ -11,3 +11,5 @@ pub mod trace;
 pub mod transport;
 pub mod wiretext;
 pub mod world;
+pub mod rtcworld;
+pub mod rtcgens;
